@@ -194,6 +194,39 @@ class Expand(Simple, DisjointUnionStrategy[WC, W]):
         return tuple(w if i == idx else None for i in range(len(children)))
 
 
+class Expand2(Simple, DisjointUnionStrategy[WC, W]):
+    """C(p) = {p} + {p.x} for every letter x + C(p.x.y) for every pair of letters: expansion by two letters, a second
+    way of expanding every class (a pack with Expand and Expand2 offers competing rules for the same class)."""
+
+    def decomposition_function(self, c):
+        if c.just_prefix:
+            return None
+        kids = [c.with_(just_prefix=True)]
+        kids += [c.with_(prefix=c.prefix + a, just_prefix=True) for a in c.alphabet]
+        kids += [c.with_(prefix=c.prefix + a + b) for a in c.alphabet for b in c.alphabet]
+        return tuple(kids)
+
+    def extra_parameters(self, c, children=None):
+        if children is None:
+            children = self.decomposition_function(c)
+        return same_params(c, children)
+
+    def formal_step(self):
+        return "expand by the next two letters"
+
+    def forward_map(self, c, w, children=None):
+        if children is None:
+            children = self.decomposition_function(c)
+        k, n = len(c.alphabet), len(c.prefix)
+        if len(w) == n:
+            idx = 0
+        elif len(w) == n + 1:
+            idx = 1 + c.alphabet.index(w[n])
+        else:
+            idx = 1 + k + c.alphabet.index(w[n]) * k + c.alphabet.index(w[n + 1])
+        return tuple(w if i == idx else None for i in range(len(children)))
+
+
 class ExpandMinimal(Expand):
     """Expand, but only for classes whose pattern set is minimal (no pattern contains another): a class with a redundant
     pattern then has no rule of its own and can only be derived from the minimal class (RedundantParentFactory)."""
@@ -1068,11 +1101,13 @@ def basic_pack(**kw):
 def make_pack(sym=False, inf=False, merge=False, iterative=False, factory=False, parent_factory=False,
               prefix_verified=None, prefix_verified_rev=None, empty_prefix_verified=False, two_sets=False, no_initial=False, name=None, expand=True,
               split=False, oneway=False, lazy=False, trim=False, rename=False, mono=False, fac2=False, cycle=False,
-              redundant_parent=False, brute=None, trimonly=False, hidden=False, trimrename=False, pfactory2=False, noinf=False, redpar=False, prefix_verified_nested=None):
+              redundant_parent=False, brute=None, trimonly=False, hidden=False, trimrename=False, pfactory2=False, noinf=False, redpar=False, prefix_verified_nested=None, expand2=False):
     inferral = ([MinimizePatterns()] if inf else []) + ([MergeStats()] if merge else []) + ([RenameStats()] if rename else [])
     exp = [ExpandFactory()] if factory else [Expand()]
     if parent_factory:
         exp = (exp if expand else []) + [ParentRuleFactory()]
+    if expand2:
+        exp = exp + [Expand2()]
     if oneway:
         exp = exp + [AddRedundant()]
     if trim:
